@@ -377,7 +377,7 @@ func runC09(r *vhlib.Run) {
 				if !allowedReaderClasses[cls] && cls != "Src7" {
 					r.Violate("error-class", "xflate: "+cls, rp)
 				}
-				if kind == "source-fault" && cls != "Src7" && cls != "Corrupted" && cls != "UEOF" {
+				if kind == "source-fault" && cls != "Src7" {
 					r.Violate("source-error-not-verbatim", "xflate: "+cls, rp)
 				}
 				for k := 0; k < 2; k++ {
@@ -387,6 +387,45 @@ func runC09(r *vhlib.Run) {
 				}
 				if ce := xr.Close(); ce == nil {
 					r.Violate("contract", fmt.Sprintf("xflate: Close after %v returned nil", first), rp)
+				}
+			}()
+		}
+	}
+	// xflate.NewReader: the source fails while the footer or one of the index blocks is
+	// being loaded (every region of the tail of the stream, and from the k-th Read on)
+	for i := 0; i < nValid; i++ {
+		data := vhlib.RandBytes(rng, 500+rng.Intn(2500))
+		sink, _, ok := makeXFStream(xwCfg{Level: 6, ChunkSize: 300, Index: []int64{-1, 1, 2, 3}[rng.Intn(4)]}, []xwOp{{Kind: 'w', Data: data}, {Kind: 'c'}})
+		if !ok {
+			continue
+		}
+		for m := 0; m < 24; m++ {
+			from := rng.Intn(len(sink))
+			fs := &faultSeeker{R: bytes.NewReader(sink), From: int64(from), To: int64(from + 1 + rng.Intn(40)), Err: &vhlib.SentinelErr{Tag: 7}, Armed: true}
+			rp := map[string]interface{}{"codec": "xflate", "stream": vhlib.Hex(sink), "source_fails_in": []int64{fs.From, fs.To}}
+			r.Eval("xflate-open-source-fault", true, sink, []byte(fmt.Sprint(from, fs.To)))
+			func() {
+				defer func() {
+					if p := recover(); p != nil {
+						r.Violate("panic", fmt.Sprint(p), rp)
+					}
+				}()
+				xr, err := xflate.NewReader(fs, nil)
+				if err == nil {
+					// the failing range was not touched while opening; drain it
+					buf := make([]byte, 512)
+					for k := 0; k < 64 && err == nil; k++ {
+						_, err = xr.Read(buf)
+					}
+					if err == nil || err == io.EOF {
+						r.Hist["xflate-open-fault:not-on-path"]++
+						return
+					}
+				}
+				cls := vhlib.ErrClass(err)
+				r.Hist["xflate-open-fault:"+cls]++
+				if cls != "Src7" {
+					r.Violate("source-error-not-verbatim", "xflate: the source failed with its own error, the Reader reports "+cls, rp)
 				}
 			}()
 		}
